@@ -20,7 +20,7 @@ import time
 from pathlib import Path
 
 CHECK_RE = re.compile(
-    r"^Check (\d+): (\S+)\n\t - Status: (\w+)\n\t - Description: \"(.*)\"\n\t - Location: (.*)$",
+    r"^Check (\d+): (.+)\n\t - Status: (\w+)\n\t - Description: \"((?:.|\n)*?)\"(?:\n\t - Location: (.*))?$",
     re.M,
 )
 KANI_FLAGS = ["-Z", "function-contracts", "-Z", "stubbing", "-Z", "unstable-options"]
@@ -88,6 +88,14 @@ def parse_result(text: str, ob: dict):
         res.update(status="undecided", reason="no per-check results (compile error or driver failure)")
         return res
     prop_fail, undecided = [], []
+    # cross-check the parser against Kani's own summary: a disagreement is never a pass
+    msum = re.search(r"\*\* (\d+) of (\d+) failed", text)
+    n_fail_parsed = sum(1 for c in checks if c[2] == "FAILURE" and not (".cover." in c[1] or c[3].startswith("cover condition")))
+    n_block_starts = len(re.findall(r"^Check \d+: ", text, re.M))
+    if not msum or int(msum.group(1)) != n_fail_parsed or n_block_starts != len(checks):
+        res.update(status="undecided", reason=f"result parser disagrees with Kani's summary ({msum.group(0) if msum else 'no summary'}; parsed {n_fail_parsed} failed of {len(checks)} blocks, {n_block_starts} block starts)")
+        return res
+    verdict_ok = "VERIFICATION:- SUCCESSFUL" in text
     for num, cid, status, desc, loc in checks:
         is_cover = ".cover." in cid or desc.startswith("cover condition")
         if is_cover:
@@ -138,6 +146,8 @@ def parse_result(text: str, ob: dict):
             res.update(status="undecided", reason="expected stub(s) not applied: " + ", ".join(missing))
         else:
             res["status"] = "ok"
+    if res["status"] == "ok" and not verdict_ok and res["ignored_nan_checks"] == 0:
+        res.update(status="undecided", reason="Kani reports FAILED but no failed check was classified")
     return res
 
 
